@@ -67,7 +67,9 @@ REG = {
          'the new hypothesis readable in order, adds exactly the score to every position; along every history whose first '
          'hypothesis is non-empty all hypotheses stay readable; normalised positions sum to 1; paths are all arc combinations '
          'each once, non-increasing, summing to 1; single hypothesis reads back. The pointer-advance flag is REGENERATED from the '
-         'source each run. Known finding (recorded): a leading empty hypothesis leaves no trace.',
+         'source each run. Every case is also built from a BagOfHypotheses through produce_cn_from_boh (with/without LM scores, LM '
+         'weights): positions and paths sum to 1 and the network equals the one-by-one construction. Known finding (recorded): a '
+         'leading empty hypothesis leaves no trace.',
     note='Trusted: Lean kernel + 3 standard axioms; the small ast translator for the append branch; float sums of dyadic '
          'scores exact, normalisation within 1e-9; the odometer enumeration is modelled as the lexicographic product (checked by '
          'exact correspondence of the enumeration order).',
@@ -134,7 +136,9 @@ REG['C11'] = dict(
          'rejects boxes separated in both axes; what a region stores is exactly mask\'s answer for the candidates, in line order, '
          'with the line\'s heights; a line mask rejects is never placed; the longest piece is the first maximum. NOT decided by '
          'proof: everything shapely computes (clipped baseline a piece of the detected one and inside the region, outline clipped, '
-         'inside-lines unchanged, untouched never placed) - judged by an independent float-geometry oracle on the real output.',
+         'inside-lines unchanged, untouched never placed) - judged by an independent float-geometry oracle on the real output, over '
+         'rectangles, concave U/C shapes, convex polygons and SELF-TOUCHING rings (pinched in a vertex, frame with a slit). Two defects '
+         'found this way are fixed (clipping to the convex hull of a self-touching region; longest piece fragmented along a boundary).',
     note='Trusted: shapely; float32 casts of coordinates < 2^24; merge loop termination (assumed).',
     technique='Lean 4 proof (string injectivity, fold invariants) with shapely as a parameter + geometry oracle (partial)',
     ref='§5-C11')
@@ -156,7 +160,8 @@ REG['C12'] = dict(
          'n+2) and returns a permutation of the input boxes for every set of boxes and every intersection parameter; coupling '
          'partitions its input; the naive order is a permutation for every DBSCAN labelling 0..k-1. Exact correspondence of the '
          'region ORDER with the real sorters on integer layouts (grids, overlapping in both axes, identical, degenerate boxes); '
-         'slanted pages: oracle (permutation, content intact, polygons equal as shapes up to 1e-6).',
+         'slanted pages and arbitrary outlines (L-shapes, zero-width spurs, self-overlapping rings, bow-ties): oracle (permutation, '
+         'content intact, polygons equal vertex by vertex as shapes up to 1e-6).',
     note='Trusted: shapely rotation (de-skew) and DBSCAN are parameters; NumPy x/0 semantics. Observation: the configured '
          'FakeIntersectionParameter is ignored by the code (intersect() always uses its default 0.1).',
     technique='Lean 4 proof (termination by fuel bound; permutation invariants) + differential correspondence',
@@ -191,7 +196,8 @@ REG['C16'] = dict(
          '[0,1]; the CTC computation is defined (every window non-empty) for every strictly increasing in-range alignment with no '
          'bound on the number of frames; one-hot windows give exactly 1; the confident-line test is monotone in its threshold. '
          'Over the reals: exp(log_softmax) sums to 1, lies in (0,1], and is invariant under a per-frame constant. Correspondence: '
-         'the probabilities the code itself computes are sent as exact dyadics, outputs agree within 1e-12.',
+         'the probabilities the code itself computes are sent as exact dyadics, outputs agree within 1e-12; the confident-line test is '
+         'exercised at ALL kinds of thresholds (negative incl. -inf, 0, (0,1), 1, > 1 incl. inf, next to the decisive value).',
     note='Trusted: Lean kernel + 3 standard axioms; NumPy/SciPy exp/log/logsumexp approximate the real functions (D4); medians via '
          'np.quantile linear interpolation. Defect found and fixed: sentinel 1000 broke lines with > 1000 frames.',
     technique='Lean 4 proof (range/definedness lemmas over ordered fields; softmax identities over R) + differential correspondence',
@@ -218,7 +224,9 @@ REG['C18'] = dict(
          'polygons keep their shape); rot=0 is the identity. Exact correspondence with the real np.rot90 (index-stamped images) and the '
          'real rotate_layout for all rotations on non-square shapes. NOT decided by proof: the ridge-decoding clause (scipy.ndimage '
          'smoothing, non-maxima suppression, labelling, percentiles) - judged by an oracle on LayoutEngine.parse over synthetic maps '
-         '(one line per ridge, end points / vertical position within a few map pixels x ds, heights = map x ds).',
+         '(one line per ridge, end points / vertical position within a few map pixels x ds, heights = map x ds) and on the whole '
+         'LayoutEngine.detect behind a stub network (columns whose ridges start on the same row, rot 0..3 on non-square pages: every '
+         'returned line carries the heights and outline of ITS ridge, in original-image coordinates).',
     note='Trusted: NumPy rot90 semantics (exercised exhaustively on small shapes); scipy.ndimage; the stub engine object bypasses the '
          'network (maps are synthetic).',
     technique='Lean 4 proof (index arithmetic, omega) + differential correspondence + ridge oracle (partial)',
@@ -228,7 +236,7 @@ REG['C19'] = dict(
          'line takes transcription, logits, character table AND recorded confidence from the same engine, the first one attaining '
          'the maximum; otherwise engine 0 is kept; ids and geometry always those of the first layout; self-merge changes nothing. '
          'Correspondence on the real merge_layouts with in-memory layouts (different charsets, empty transcriptions, the 0.5 '
-         'fallback), confidences sent as exact dyadics.',
+         'fallback, lines arriving with a stored confidence), confidences sent as exact dyadics.',
     note='Trusted: Lean kernel + standard axioms; the per-engine mean character confidence is an input of the model (computed by '
          'the real get_confidences; its range is C16).',
     technique='Lean 4 proof (fold invariant: first strict maximum) + differential correspondence',
@@ -241,7 +249,8 @@ REG['C20'] = dict(
          'decoding loop stops within W/4 + 2 network evaluations for every network; the post-processed transcription contains no '
          'boundary / ignore symbol. Tie to the real code without source hooks: tensor snapshots around every Decoder.infer call give '
          'the real write sets and re-allocations (compared with the model), and every slot the model calls invalid is poisoned with '
-         'NaN before each step - the outputs stay NaN-free and bit-identical. NOT decided by proof: float equality of cached vs. '
+         'NaN before each step - the outputs stay NaN-free and bit-identical; postprocess_decoded against the model and an independent '
+         'oracle (symbols, prefix, batch independence). NOT decided by proof: float equality of cached vs. '
          'uncached vs. teacher-forced scores, per-line and per-history independence of the numbers (checked differentially, 1e-4).',
     note='Trusted: PyTorch kernels act lane-wise; random-weight small models stand in for trained ones; the VGG front-end is replaced '
          'by a conv stub (it downloads weights).',
